@@ -114,6 +114,7 @@ pub fn gen_script(rng: &mut Rng, flags: GenFlags) -> PsScript {
     let mut gate = gates.clone();
     let mut budget = if flags.large { rng.usize(20, 120) } else { rng.usize(0, 40) };
     let upfront = rng.chance(1, 2);
+    let mut burst_done = false;
     if upfront {
         let mut regs: Vec<PsStep> = (0..n_pubs).map(PsStep::RegPub).chain((0..n_subs).map(PsStep::RegSub)).collect();
         rng.shuffle(&mut regs);
@@ -174,6 +175,13 @@ pub fn gen_script(rng: &mut Rng, flags: GenFlags) -> PsScript {
             2 => {
                 let c: Vec<usize> = (0..n_pubs).filter(|p| !ended[*p]).collect();
                 let p = *rng.pick(&c);
+                // now and then one publisher has a long run of items ready at once (a burst far
+                // larger than any per-step bound a router might apply to itself)
+                if !burst_done && rng.chance(1, 80) {
+                    burst_done = true;
+                    steps.push(PsStep::Feed { p, n: rng.usize(100, 400) });
+                    continue;
+                }
                 let n = rng.usize(1, 3).min(budget);
                 budget -= n;
                 steps.push(PsStep::Feed { p, n });
@@ -636,6 +644,16 @@ fn finish(mut run: Run<'_>, opts: &ExecOpts) -> Outcome {
             );
         }
     }
+    // a live router that went to sleep while a registered publisher still has items ready
+    // sleeps on undone work: every subscriber accepts data now, nothing holds it back
+    if !run.closed && !run.stop && run.exec.alive() {
+        for (p, st) in w.streams.iter().enumerate() {
+            if run.pub_reg[p] && !st.dropped && !st.queue.is_empty() {
+                run.out.violate(prop, "input-not-consumed", "pubsub-publisher-stream", format!("publisher {p}: {} items still waiting in its stream at quiescence although every subscriber accepts data", st.queue.len()));
+                break;
+            }
+        }
+    }
     // shutdown: the router must have terminated
     if run.closed && !run.stop && run.exec.alive() {
         run.out.violate(prop, "shutdown-hang", "pubsub-router", format!("registration channel closed, every subscriber accepts data, router still pending after {} polls", run.exec.polls));
@@ -774,6 +792,13 @@ pub fn shrink_script(sc: &PsScript) -> Vec<PsScript> {
                 let mut c = sc.clone();
                 c.steps[i] = PsStep::Feed { p: *p, n: 1 };
                 out.push(c);
+                if *n > 3 {
+                    for m in [*n / 2, *n - 1] {
+                        let mut c = sc.clone();
+                        c.steps[i] = PsStep::Feed { p: *p, n: m };
+                        out.push(c);
+                    }
+                }
             }
         }
     }
